@@ -132,8 +132,13 @@ func (c *Ctx) load(bc buildConfig) error {
 	c.ModFns = nil
 	c.Callers = map[*ssa.Function][]ssa.CallInstruction{}
 	c.ClosureSites = map[*ssa.Function][]*ssa.MakeClosure{}
-	for f := range ssautil.AllFunctions(prog) {
-		if c.inRuleScope(f) && f.Synthetic == "" {
+	allFns := ssautil.AllFunctions(prog)
+	dead := c.normalizeHelpers(allFns)
+	if len(dead) > 0 || len(c.inlineLog()) > 0 {
+		allFns = ssautil.AllFunctions(prog)
+	}
+	for f := range allFns {
+		if c.inRuleScope(f) && f.Synthetic == "" && !dead[f] {
 			c.ModFns = append(c.ModFns, f)
 		}
 	}
@@ -165,6 +170,11 @@ func (c *Ctx) load(bc buildConfig) error {
 		c.Stats["functions"] = len(c.ModFns)
 	}
 	return nil
+}
+
+func (c *Ctx) inlineLog() []string {
+	l, _ := c.memo["inline.log"].([]string)
+	return l
 }
 
 // inRuleScope reports whether f is source code of a module package subject to rules.
